@@ -44,8 +44,12 @@ def bytesLt (a b : Bytes) : Bool :=
 
 def sortBytes (xs : List Bytes) : List Bytes := (xs.toArray.qsort bytesLt).toList
 
+/-- canonical form of an extension (a Go map): name first, then parameters sorted by key, the last
+    assignment to a key wins -/
 def showExt (e : Ext) : String :=
-  "[" ++ ";".intercalate (e.map (fun p => toHex p.1 ++ "=" ++ toHex p.2)) ++ "]"
+  let keys := sortBytes ((e.drop 1).map (·.1)).eraseDups
+  let val (k : Bytes) : Bytes := (((e.drop 1).filter (fun p => p.1 == k)).getLast?.map (·.2)).getD []
+  "[" ++ ";".intercalate (("-=" ++ toHex e.name) :: keys.map (fun k => toHex k ++ "=" ++ toHex (val k))) ++ "]"
 
 def hsStep (ts : List String) : Option String :=
   match ts with
@@ -96,7 +100,7 @@ def hsStep (ts : List String) : Option String :=
     match fromHex v with
     | some v => some (if tokenListContainsValue (kvHexList ts "lines") v then "1" else "0")
     | none => none
-  | "pext" :: _ => some ("exts " ++ " ".intercalate ((parseExtensions (kvHexList ts "lines")).map showExt))
+  | "pext" :: _ => some (("exts " ++ " ".intercalate ((parseExtensions (kvHexList ts "lines")).map showExt)).trimAscii.toString)
   | ["vck", k] => (fromHex k).map (fun k => if isValidChallengeKey k then "1" else "0")
   | ["ntq", s] => (fromHex s).map (fun s => let (a, b) := nextTokenOrQuoted s; toHex a ++ " " ++ toHex b)
   | ["acc", k] => (fromHex k).map (fun k => toHex (Spec.acceptKey Gen.keyGUID k))
